@@ -12,9 +12,10 @@ import itertools
 
 from ..gen import c01_enc as E
 from ..gen import c01_rsmi as R
+from ..gen import c01_str as T
 
 PID = "C01"
-COQ_HEADER = ("From Coq Require Import List NArith ZArith.\nFrom SK Require Import lib.Tok lib.LGraph model.C01_Model.\n"
+COQ_HEADER = ("From Coq Require Import List NArith ZArith.\nFrom SK Require Import lib.Tok lib.LGraph model.C01_Model model.C02_Model model.C01_Opts model.C01_String.\n"
               "Import ListNotations.\nOpen Scope Z_scope.\n")
 SHARD = 400
 IMPL_TIMEOUT = 1500
@@ -81,10 +82,21 @@ def _graphs_nx(case):
 def impl(case):
     from synkit.Graph.ITS.its_construction import ITSConstruction
     from synkit.Graph.ITS.its_decompose import its_decompose
+    k = case.get("kind", "")
+    if k.startswith("str-"):
+        return T.obs_pipeline(case["rsmi"])
+    if k == "m2g":
+        return T.obs_m2g(case["smiles"], case["drop"], case["use"])
+    if k == "ih":
+        return T.obs_ih(case["G"], case["pres"])
     gh = _graphs_nx(case)
     if gh is None:
         return ["unparsable"]
     G, H = gh
+    if "opts" in case:
+        its = E.call_construct(G, H, case["opts"])
+        g2, h2 = its_decompose(its)
+        return [E.obs_its_store(its) if case["opts"].get("store") else E.obs_its(its), E.obs_mgraph(g2), E.obs_mgraph(h2)]
     its = ITSConstruction.ITSGraph(G, H)
     g2, h2 = its_decompose(its)
     return [E.obs_its(its), E.obs_mgraph(g2), E.obs_mgraph(h2)]
@@ -94,10 +106,23 @@ def impl(case):
 
 def coq_case(case):
     worker_init()
+    k = case.get("kind", "")
+    try:
+        if k.startswith("str-"):
+            return T.coq_pipeline(case["rsmi"]) if R.well_formed(case["rsmi"]) else None
+        if k == "m2g":
+            return T.coq_m2g(case["smiles"], case["drop"], case["use"])
+        if k == "ih":
+            return T.coq_ih(case["G"], case["pres"])
+    except (KeyError, TypeError, ValueError):
+        return None
     gh = _graphs_nx(case)
     if gh is None:
         return None
     try:
+        if "opts" in case:
+            return "%s %s %s %s" % ("run_S" if case["opts"].get("store") else "run_o", E.coq_opts(case["opts"]),
+                                    E.coq_mgraph(E.from_nx(gh[0])), E.coq_mgraph(E.from_nx(gh[1])))
         return "run %s %s" % (E.coq_mgraph(E.from_nx(gh[0])), E.coq_mgraph(E.from_nx(gh[1])))
     except (KeyError, TypeError, ValueError):
         return None
@@ -142,12 +167,14 @@ def _cmp_graph(side, orig, back, fails):
         fails.append(dict(clause="roundtrip-bonds", detail="%s: bonds differ (orig, back): %r" % (side, diff)))
 
 
-def graph_clauses(G, H):
-    """round trip + union, demanded only for balanced pairs"""
+def graph_clauses(G, H, opts=None):
+    """round trip + union, demanded only for balanced pairs; for every value of the construction options
+    (ignore_aromaticity only changes standard_order on bonds whose orders differ by less than one unit: documented)"""
     from synkit.Graph.ITS.its_construction import ITSConstruction
     from synkit.Graph.ITS.its_decompose import its_decompose
     fails = []
-    its = ITSConstruction.ITSGraph(G, H)
+    its = ITSConstruction.ITSGraph(G, H) if opts is None else E.call_construct(G, H, opts)
+    ia = bool(opts and opts.get("ia"))
     g2, h2 = its_decompose(its)
     _cmp_graph("reactant", G, g2, fails)
     _cmp_graph("product", H, h2, fails)
@@ -161,7 +188,8 @@ def graph_clauses(G, H):
     else:
         for k, d in ei.items():
             a, b = eg.get(k, 0), eh.get(k, 0)
-            if tuple(d.get("order", ())) != (a, b) or d.get("standard_order") != a - b:
+            want_std = 0 if (ia and abs(a - b) < 1) else a - b
+            if tuple(d.get("order", ())) != (a, b) or d.get("standard_order") != want_std:
                 fails.append(dict(clause="order-pair", detail="bond %r: ITS has order=%r standard_order=%r, sides have (%r, %r)"
                                   % (sorted(k), d.get("order"), d.get("standard_order"), a, b)))
                 break
@@ -184,6 +212,28 @@ def _its_of_reading(A, B):
         u, v = tuple(e)
         I.add_edge(u, v, lab=(A[1].get(e, 0), B[1].get(e, 0)))
     return I
+
+
+def fold_spectator_h(A, B):
+    """Reading of a reaction modulo spectator hydrogens: an explicit mapped H that has, on BOTH sides, exactly one bond,
+    to the same non-hydrogen atom, is removed and counted in that atom's total H (on both sides).  its_to_rsmi writes such
+    hydrogens implicitly (they are not part of the reaction centre); reacting hydrogens stay atoms."""
+    (na, ea), (nb, eb) = (dict(A[0]), dict(A[1])), (dict(B[0]), dict(B[1]))
+
+    def nbrs(e, h):
+        return [(next(iter(k - {h})), o) for k, o in e.items() if h in k and len(k) == 2]
+    for h in sorted(set(na) & set(nb)):
+        if na[h][0] != "H" or nb[h][0] != "H":
+            continue
+        x, y = nbrs(ea, h), nbrs(eb, h)
+        if len(x) == 1 and x == y and na.get(x[0][0], ("H",))[0] != "H" and nb.get(x[0][0], ("H",))[0] != "H":
+            p = x[0][0]
+            for nodes, edges in ((na, ea), (nb, eb)):
+                del nodes[h]
+                del edges[frozenset((h, p))]
+                sym, ch, th, ar = nodes[p]
+                nodes[p] = (sym, ch, th + 1, ar)
+    return (na, ea), (nb, eb)
 
 
 def string_clauses(rsmi, G, H):
@@ -211,9 +261,11 @@ def string_clauses(rsmi, G, H):
     if A2 is None or B2 is None:
         fails.append(dict(clause="string-roundtrip", detail="its_to_rsmi wrote an unreadable reaction %r" % back))
         return fails, True
-    same = A2[:2] == A[:2] and B2[:2] == B[:2]          # identical as graphs keyed by atom map: trivially equivalent
+    FA, FB = fold_spectator_h(A, B)
+    FA2, FB2 = fold_spectator_h(A2, B2)
+    same = FA2 == FA and FB2 == FB                      # identical as graphs keyed by atom map: trivially equivalent
     if not same:
-        I1, I2 = _its_of_reading(A, B), _its_of_reading(A2, B2)
+        I1, I2 = _its_of_reading(FA, FB), _its_of_reading(FA2, FB2)
         ok = nx.is_isomorphic(I1, I2, node_match=lambda x, y: x["lab"] == y["lab"], edge_match=lambda x, y: x["lab"] == y["lab"])
         if not ok:
             fails.append(dict(clause="string-equivalent", detail="its_to_rsmi(rsmi_to_its(r)) = %r is not atom-map-equivalent to r = %r" % (back, rsmi)))
@@ -222,7 +274,42 @@ def string_clauses(rsmi, G, H):
     return fails, True
 
 
+def ih_clauses(gjson, pres):
+    """implicit_hydrogen on a molecule graph in which every hydrogen has exactly one bond, to a non-hydrogen atom, and
+    atom_map = node id: hydrogens whose map is preserved stay, the others disappear, every other atom keeps its element,
+    charge and bonds, and its total hydrogen count (hcount + hydrogen neighbours) is unchanged."""
+    from synkit.Graph.Hyrogen._misc import implicit_hydrogen
+    g = E.to_nx(gjson)
+    el = {n: d["element"] for n, d in g.nodes(data=True)}
+    if any(d["atom_map"] != n for n, d in g.nodes(data=True)):
+        return []
+    for n in g.nodes:
+        if el[n] == "H" and (g.degree(n) != 1 or el[next(iter(g[n]))] == "H"):
+            return []
+    before = {n: (el[n], d["charge"], d["hcount"] + sum(1 for m in g[n] if el[m] == "H")) for n, d in g.nodes(data=True) if el[n] != "H"}
+    heavy_bonds = {frozenset((u, v)): d["order"] for u, v, d in g.edges(data=True) if el[u] != "H" and el[v] != "H"}
+    out = implicit_hydrogen(E.to_nx(gjson), set(pres))
+    fails = []
+    keep = {n for n in g.nodes if el[n] != "H" or n in set(pres)}
+    if set(out.nodes) != keep:
+        fails.append(dict(clause="implicit-h-atoms", detail="atoms %r, expected %r (preserve %r)" % (sorted(out.nodes), sorted(keep), sorted(pres))))
+        return fails
+    after = {n: (d["element"], d["charge"], d["hcount"] + sum(1 for m in out[n] if out.nodes[m]["element"] == "H"))
+             for n, d in out.nodes(data=True) if d["element"] != "H"}
+    if after != before:
+        diff = {n: (before[n], after[n]) for n in before if before[n] != after[n]}
+        fails.append(dict(clause="implicit-h-total", detail="(element, charge, total H) before/after: %r (preserve %r)" % (diff, sorted(pres))))
+    hb = {frozenset((u, v)): d["order"] for u, v, d in out.edges(data=True) if el[u] != "H" and el[v] != "H"}
+    if hb != heavy_bonds:
+        fails.append(dict(clause="implicit-h-bonds", detail="bonds between non-hydrogen atoms changed"))
+    return fails
+
+
 def oracle(case):
+    if case.get("kind") == "ih":
+        return ih_clauses(case["G"], case["pres"])
+    if case.get("kind") == "m2g":
+        return []
     gh = _graphs_nx(case)
     fails = []
     if gh is None:
@@ -232,11 +319,13 @@ def oracle(case):
                 fails.append(dict(clause="parse-monitor", detail="rsmi_to_graph returned None on a readable reaction"))
         return fails
     G, H = gh
+    if case.get("kind", "").startswith("str-"):
+        if R.well_formed(case["rsmi"]):
+            f2, _ = string_clauses(case["rsmi"], G, H)
+            fails += f2
+        return fails[:3]
     if balanced_pair(G, H):
-        fails += graph_clauses(G, H)
-    if "rsmi" in case and R.well_formed(case["rsmi"]):
-        f2, _ = string_clauses(case["rsmi"], G, H)
-        fails += f2
+        fails += graph_clauses(G, H, case.get("opts"))
     return fails[:3]
 
 
@@ -416,12 +505,214 @@ def gen_corpus(rng, n_sample, n_rewrites):
     return cases
 
 
+
+# ------------------------------------------------------------------ options of ITSConstruction (model/C01_Opts.v)
+
+DFLT_CHOICES = {"element": ("X", "C", "H"), "aromatic": (True,), "hcount": (2, 7), "charge": (-1, 3), "neighbors": ([], ["C"], ["C", "H", "O"])}
+
+
+def _opts(rng, **force):
+    o = dict(ia=rng.random() < 0.6, bal=rng.random() < 0.5, store=rng.random() < 0.35, api=rng.choice(("ITSGraph", "construct")))
+    if rng.random() < 0.3:
+        ks = rng.sample(sorted(DFLT_CHOICES), rng.randint(1, 3))
+        o["dflt"] = {k: rng.choice(DFLT_CHOICES[k]) for k in ks}
+    o.update(force)
+    return o
+
+
+def gen_opts_exhaustive(rng):
+    """2 carbon atoms, per-side order in {absent,1,1.5,2}, every (ia, bal, store, api): 256 cases"""
+    cases = []
+    for a in ORD4:
+        for b in ORD4:
+            for ia, bal, store in itertools.product((False, True), repeat=3):
+                for api in ("ITSGraph", "construct"):
+                    c = _pair([1, 2], [("C", 1, 0), ("C", 0, 0)], [("C", 0, 1), ("C", 0, 0)], {(0, 1): a}, {(0, 1): b}, rng, "opt-exh2")
+                    c["opts"] = dict(ia=ia, bal=bal, store=store, api=api)
+                    cases.append(c)
+    return cases
+
+
+def gen_opts_arom(rng, count):
+    """aromatisation / dearomatisation of a ring of 5..7 atoms with a substituent bond that really changes:
+    Kekule (1,2,1,2,..) <-> aromatic (1.5 ...) on either side; the adversarial stream for ignore_aromaticity"""
+    cases = []
+    for _ in range(count):
+        n = rng.randint(5, 7)
+        ids = rng.sample(range(1, 40), n + 2)
+        ring = [(i, (i + 1) % n) for i in range(n)]
+        kek = {tuple(sorted(p)): (1 if k % 2 else 2) for k, p in enumerate(ring)}
+        aro = {tuple(sorted(p)): 1.5 for p in ring}
+        g_arom = rng.random() < 0.5
+        og, oh = (dict(aro), dict(kek)) if g_arom else (dict(kek), dict(aro))
+        og[(0, n)] = 1                      # substituent leaves atom 0 ...
+        oh[(1, n)] = 1                      # ... and ends up on atom 1
+        og[(n, n + 1)] = oh[(n, n + 1)] = rng.choice((1, 2))
+        labs = [("C", 1, 0, g_arom)] * n + [("O", 0, 0), ("C", 3, 0)]
+        labs_h = [("C", 1, 0, not g_arom)] * n + [("O", 0, 0), ("C", 3, 0)]
+        c = _pair(ids, labs, labs_h, og, oh, rng, "opt-arom")
+        c["opts"] = _opts(rng, ia=rng.random() < 0.8)
+        cases.append(c)
+    return cases
+
+
+def gen_opts_random(rng, n_rand, n_malformed):
+    cases = []
+    for c in gen_random(rng, n_rand, maxn=8):
+        c["kind"] = "opt-random"
+        c["opts"] = _opts(rng)
+        cases.append(c)
+    for c in gen_malformed(rng, n_malformed):
+        c["kind"] = "opt-malformed"
+        c["opts"] = _opts(rng)
+        cases.append(c)
+    return cases
+
+
+def add_corpus_opts(cases, rng, frac):
+    """an options variant of a fraction of the reaction-string cases"""
+    out = []
+    for c in cases:
+        if "rsmi" in c and c["kind"] in ("corpus", "rw-renum", "rw-rev") and rng.random() < frac:
+            out.append(dict(c, kind="opt-" + c["kind"], opts=_opts(rng, ia=True)))
+    return out
+
+
+# ------------------------------------------------------------------ string half (model/C01_String.v)
+
+HAND_STR = [
+    # two reacting hydrogens on one atom (amine + aldehyde -> imine + water), explicit and mapped
+    "[CH3:1][N:2]([H:3])[H:4].[O:5]=[CH:6][CH3:7]>>[CH3:1][N:2]=[CH:6][CH3:7].[O:5]([H:3])[H:4]",
+    # water giving both hydrogens; hydrogenation with H2 (an H-H bond in the centre)
+    "[CH2:1]=[CH2:2].[H:3][H:4]>>[CH2:1]([H:3])[CH2:2][H:4]",
+    "[CH:1]#[CH:2].[H:3][H:4].[H:5][H:6]>>[CH:1]([H:3])([H:5])[CH:2]([H:4])[H:6]",
+    # spectator H2 next to a reacting one, spectator explicit hydrogens
+    "[CH2:1]=[CH2:2].[H:3][H:4].[H:5][H:6]>>[CH2:1]([H:3])[CH2:2][H:4].[H:5][H:6]",
+    "[C:1]([H:5])([H:6])([H:7])[Br:2].[O:3]([H:4])[H:8]>>[C:1]([H:5])([H:6])([H:7])[O:3][H:8].[Br:2][H:4]",
+    # ring closure digits >= 10 and two-digit atom maps
+    "[cH:10]1[cH:11][cH:12][c:13]2[cH:14][cH:15][cH:16][cH:17][c:18]2[cH:19]1.[Br:20][Br:21]>>[cH:10]1[cH:11][c:12]([Br:20])[c:13]2[cH:14][cH:15][cH:16][cH:17][c:18]2[cH:19]1.[Br:21][H:22]",
+    # charged species, proton transfer written with an explicit proton
+    "[NH3:1].[H+:2]>>[NH3+:1][H:2]",
+    "[O-:1][CH3:2].[H:3][Cl:4]>>[O:1]([H:3])[CH3:2].[Cl-:4]",
+]
+
+
+def gen_str(rsmi_cases, rng, n_exph):
+    """twins of the reaction-string cases that run the whole string pipeline, explicit-hydrogen rewritings, hand-made reactions"""
+    cases = []
+    for c in rsmi_cases:
+        if "rsmi" in c and "opts" not in c:
+            cases.append(dict(kind="str-" + c["kind"], rsmi=c["rsmi"], src=c.get("src")))
+    pool = [c for c in rsmi_cases if c.get("kind") == "corpus"]
+    rng.shuffle(pool)
+    k = 0
+    for c in pool:
+        if k >= n_exph:
+            break
+        try:
+            x = T.explicit_h_rewrite(c["rsmi"], rng, p_spectator=rng.choice((0.1, 0.3, 0.6)))
+        except Exception:
+            x = None
+        if x:
+            cases.append(dict(kind="str-exph", rsmi=x, src=c.get("src")))
+            cases.append(dict(kind="exph", rsmi=x, src=c.get("src")))
+            k += 1
+    for i, r in enumerate(HAND_STR):
+        cases.append(dict(kind="str-hand", rsmi=r, src="hand#%d" % i))
+        cases.append(dict(kind="hand", rsmi=r, src="hand#%d" % i))
+        cases.append(dict(kind="str-hand", rsmi=R.renumber_maps(r, rng), src="hand#%d-renum" % i))
+    return cases
+
+
+def _unmap_some(smiles, rng):
+    """remove the atom map of some atoms / give two atoms the same map (malformed input for MolToGraph)"""
+    import re
+    maps = re.findall(r":(\d+)\]", smiles)
+    if not maps:
+        return smiles
+    z = rng.random()
+    if z < 0.6:
+        drop = set(rng.sample(maps, rng.randint(1, max(1, len(maps) // 3))))
+        return re.sub(r":(\d+)\]", lambda m: "]" if m.group(1) in drop else m.group(0), smiles)
+    if len(maps) >= 2:
+        a, b = rng.sample(maps, 2)
+        return re.sub(r":%s\]" % a, ":%s]" % b, smiles, count=1)
+    return smiles
+
+
+def gen_m2g(rsmi_cases, rng, count):
+    sides = []
+    for c in rsmi_cases:
+        if "rsmi" in c and R.well_formed(c["rsmi"]):
+            sides += c["rsmi"].split(">>")
+    rng.shuffle(sides)
+    cases = []
+    for s in sides[:count]:
+        for f in s.split(".")[:2] + [s]:
+            drop, use = rng.choice(((True, True), (False, True), (False, False), (True, False)))
+            cases.append(dict(kind="m2g", smiles=f if rng.random() < 0.5 else _unmap_some(f, rng), drop=drop, use=use))
+    return cases
+
+
+def gen_ih(rng, count):
+    """molecule graphs with explicit hydrogens for implicit_hydrogen / GraphToMol: a heavy-atom skeleton, hydrogens hung on
+    it (often several on one atom), occasionally an H-H bond, a bridging hydrogen, an isolated hydrogen; preserve set = a
+    PRNG subset of the hydrogens' atom maps (often two hydrogens of the same atom)"""
+    cases = []
+    for _ in range(count):
+        nh = rng.randint(1, 5)
+        ids = rng.sample(range(1, 30), nh)
+        nodes = [[i, E.mol_node(i, rng.choice(("C", "N", "O", "Cl")), rng.choice((0, 0, 1, 2)), rng.choice((0, 0, 1, -1)), rng.random() < 0.2)] for i in ids]
+        edges = []
+        for k in range(1, nh):
+            if rng.random() < 0.85:
+                edges.append([ids[k], ids[rng.randrange(k)], {"order": rng.choice((1, 1, 2, 1.5, 3))}])
+        hs = []
+        nxt = 30
+        for i in ids:
+            for _ in range(rng.choice((0, 1, 1, 2, 3))):
+                amap = nxt if rng.random() < 0.9 else rng.choice((0, nxt + 1, ids[0]))
+                nodes.append([nxt, E.mol_node(nxt, "H", 0, 0, False, None, amap)])
+                edges.append([i, nxt, {"order": 1}] if rng.random() < 0.5 else [nxt, i, {"order": 1}])
+                hs.append(nxt)
+                nxt += 1
+        z = rng.random()
+        if z < 0.12 and len(hs) >= 2:
+            a, b = rng.sample(hs, 2)
+            edges.append([a, b, {"order": 1}])                 # H-H bond between two bound hydrogens (malformed but possible)
+        elif z < 0.2:
+            nodes += [[nxt, E.mol_node(nxt, "H", 0, 0)], [nxt + 1, E.mol_node(nxt + 1, "H", 0, 0)]]
+            edges.append([nxt, nxt + 1, {"order": 1}])         # H2
+            hs += [nxt, nxt + 1]
+        elif z < 0.26 and nh >= 2 and hs:
+            edges.append([hs[0], ids[-1], {"order": 1}])       # bridging hydrogen
+        elif z < 0.3:
+            nodes.append([nxt, E.mol_node(nxt, "H", 0, 1)])    # isolated proton
+            hs.append(nxt)
+        rng.shuffle(nodes)
+        rng.shuffle(edges)
+        amaps = [a["atom_map"] for n, a in nodes if n in set(hs)]
+        pres = [m for m in amaps if rng.random() < 0.45]
+        if rng.random() < 0.1:
+            pres = []
+        if rng.random() < 0.1:
+            pres.append(rng.choice(ids))                        # a heavy atom's map in the preserve set
+        cases.append(dict(kind="ih", G={"nodes": nodes, "edges": edges}, pres=sorted(set(pres))))
+    return cases
+
+
 def gen_cases(tier, rng):
     cases = gen_exhaustive_small(rng) + gen_three(rng)
     if tier == "quick":
         cases += gen_four(rng, 1500) + gen_random(rng, 800) + gen_malformed(rng, 500)
-        cases += gen_corpus(rng, 40, 1)
+        cases += gen_opts_exhaustive(rng) + gen_opts_arom(rng, 150) + gen_opts_random(rng, 500, 300)
+        cor = gen_corpus(rng, 40, 1)
+        cases += cor + add_corpus_opts(cor, rng, 0.5)
+        cases += gen_str(cor, rng, 25) + gen_m2g(cor, rng, 60) + gen_ih(rng, 600)
     else:
         cases += gen_four(rng, 30000) + gen_random(rng, 12000) + gen_malformed(rng, 6000)
-        cases += gen_corpus(rng, None, 2)
+        cases += gen_opts_exhaustive(rng) + gen_opts_arom(rng, 2000) + gen_opts_random(rng, 8000, 4000)
+        cor = gen_corpus(rng, None, 2)
+        cases += cor + add_corpus_opts(cor, rng, 0.5)
+        cases += gen_str(cor, rng, 300) + gen_m2g(cor, rng, 600) + gen_ih(rng, 8000)
     return cases
